@@ -19,6 +19,12 @@ let () = iter_lines (fun line ->
       let server = if name = "~" then None else Some (nlist_of_csv name, opt port) in
       so (wsgi_current_uri (flags.[0] = '1') (flags.[1] = '1') (flags.[2] = '1') (nlist_of_csv scheme) (opt hh) server
             (nlist_of_csv script) (nlist_of_csv path) (nlist_of_csv qs))
+  | "benv" :: scheme :: netloc :: base_path :: path :: items ->
+      let its = List.map (fun kv -> match String.split_on_char '=' kv with
+                                    | [k; v] -> (nlist_of_csv k, nlist_of_csv v) | _ -> failwith "item") items in
+      (match builder_environ (nlist_of_csv scheme) (nlist_of_csv netloc) (nlist_of_csv base_path) (nlist_of_csv path) its with
+       | Some e -> "ok " ^ csv_of_nlist e.e_script ^ " " ^ csv_of_nlist e.e_path ^ " " ^ csv_of_nlist e.e_query
+       | None -> "exn")
   | ["tbytes"; s] -> "ok " ^ hex_of_nlist (tbytes (nlist_of_csv s)) ^ (if wf_pct (nlist_of_csv s) then " wf" else " stray")
   | ["spliturl"; u] ->
       (match split_uri (nlist_of_csv u) with
